@@ -62,6 +62,7 @@ class DtdGen:
         self.hostile = hostile
         self.namespaces = namespaces  # declare a default / prefixed namespace through #FIXED xmlns attributes on the root
         self.attr_namespaces = not hostile
+        self.allow_known_findings = False
         self.used = set()
         self.class_names = ClassNames()
 
@@ -137,6 +138,10 @@ class DtdGen:
             if depth < 2 and rng.random() < 0.15 and len(pool) > k and not have_sub:
                 have_sub = True
                 sub = self.model(d, pool[k:], depth + 1)
+                if kind == "choice" and sub.kind == "seq" and len(sub.items) > 1 and not self.allow_known_findings:
+                    # a sequence as one alternative of a choice: with compound fields all its members land in one
+                    # single-valued field (open known finding C16/sequence-inside-choice-collapses, probe in vf/props/c16.py)
+                    sub.kind = "choice"
                 sub.occur = rng.choice(["", "?", "*", "+"])
                 if sub.occur in ("*", "+") and not (sub.kind == "choice" and all(x.kind == "elem" and x.occur == "" for x in sub.items)):
                     d.order_preserving = False
